@@ -71,6 +71,7 @@ def new_game(case):
             **({"p1_points": 0, "p2_points": 0} if case.get("pts0") else {}))
     g._cv_fake = fake
     g._cv_ints = bool(case.get("ints"))
+    g._cv_hostile = bool(case.get("hostile"))
     return g
 
 
@@ -79,14 +80,58 @@ def canon_melds(melds):
 
 
 def observe_view(g, is1):
-    try:
-        v = g.to_dict((1 if is1 else 0) if getattr(g, "_cv_ints", False) else is1)
-    except Exception as e:
-        return "!" + type(e).__name__
-    return {"hand": list(v["hand"]), "points": v["points"], "top": v["top_of_discard"], "lfd": v["last_draw_from_discard"],
-            "deck_length": v["deck_length"], "hud": [[c, l.value] for c, l in v["hud"].items()],
-            "action": (v["action"].value if v["action"] is not None else "none"),
-            "drawn": v.get("drawn_card"), "last_draw": v.get("last_draw")}
+    def take():
+        try:
+            v = g.to_dict((1 if is1 else 0) if getattr(g, "_cv_ints", False) else is1)
+        except Exception as e:
+            return None, "!" + type(e).__name__
+        try:
+            return v, {"hand": list(v["hand"]), "points": v["points"], "top": v["top_of_discard"], "lfd": v["last_draw_from_discard"],
+                       "deck_length": v["deck_length"], "hud": [[c, l.value] for c, l in v["hud"].items()],
+                       "action": (v["action"].value if v["action"] is not None else "none"),
+                       "drawn": v.get("drawn_card"), "last_draw": v.get("last_draw")}
+        except Exception as e:       # a view without its documented fields
+            return v, "!view:" + type(e).__name__
+    v, out = take()
+    if getattr(g, "_cv_hostile", False) and v is not None:
+        # the receiver edits the view he was handed (takes the drawn card out of the displayed hand, pops what he has shown);
+        # asked again in the same state, the game must show the same view as before
+        scribble(v)
+        v2, out2 = take()
+        if v2 is not None:
+            scribble(v2)
+        if isinstance(out, dict) and (not isinstance(out2, dict) or sorted(out2["hand"]) != sorted(out["hand"]) or
+                                      dict(map(tuple, out2["hud"])) != dict(map(tuple, out["hud"])) or
+                                      any(out2[k] != out[k] for k in ("points", "top", "deck_length", "action"))):
+            return "!the view asked for again after its receiver edited the first one differs: " + json_short(out) + " then " + json_short(out2)
+    return out
+
+
+def json_short(x):
+    import json
+    return json.dumps(x, default=str)[:160]
+
+
+def scribble(x, depth=0):
+    """what a caller may do with a RESULT it was handed (a view, a candidate list, a report): edit it -- pull the drawn card
+    out of the displayed hand, pop entries it has shown, reuse the dict as its own record.  Every mutable container reachable
+    from the result is emptied in place; nothing the game keeps may be affected"""
+    if depth > 4:
+        return
+    if isinstance(x, dict):
+        for v in list(x.values()):
+            scribble(v, depth + 1)
+        try:
+            x.clear()
+        except Exception:
+            pass
+    elif isinstance(x, (list, set)):
+        for v in list(x):
+            scribble(v, depth + 1)
+        try:
+            x.clear()
+        except Exception:
+            pass
 
 
 def observe(g):
@@ -106,14 +151,19 @@ def observe(g):
         def cview(is1):
             try:
                 v = g.to_dict(is1)
-                return {"points": v["points"], "opp_points": v["opponent_points"], "opp_hand": list(v["opponent_hand"]),
-                        "action": getattr(v["action"], "value", v["action"])}
+                r = {"points": v["points"], "opp_points": v["opponent_points"], "opp_hand": list(v["opponent_hand"]),
+                     "action": getattr(v["action"], "value", v["action"])}
+                if getattr(g, "_cv_hostile", False):
+                    scribble(v)
+                return r
             except Exception as e:
                 return "!" + type(e).__name__
         o["cv1"] = cview(True); o["cv2"] = cview(False)    # what each player is shown once the game is over
     try:
         kc = g.get_knock_candidates() if hasattr(g, "get_knock_candidates") else []
         o["kc"] = [[dw, [list(m) for m in melds]] for dw, melds in kc]
+        if getattr(g, "_cv_hostile", False):
+            scribble(kc)
     except Exception as e:
         o["kc"] = "!" + type(e).__name__
     return o
@@ -187,7 +237,7 @@ def run_ops(case):
                             turn=g.turn, first_turn=g.first_turn, public_hud=dict(g.public_hud), last_draw=g.last_draw,
                             last_draw_from_discard=g.last_draw_from_discard, turns=g.turns, max_turns=g.max_turns)
                 h.shuffles = g.shuffles          # (a counter the subclasses' constructors do not take)
-                h._cv_fake = g._cv_fake; h._cv_ints = g._cv_ints
+                h._cv_fake = g._cv_fake; h._cv_ints = g._cv_ints; h._cv_hostile = getattr(g, "_cv_hostile", False)
                 g = h
             except Exception as e:
                 rec["resume_exc"] = f"{type(e).__name__}: {str(e)[:100]}"
@@ -464,6 +514,8 @@ def gen_game(rng):
             "shuffle": [rng.randrange(4), rng.randrange(0, 20)], "ops": []}
     if rng.random() < 0.3:
         case["ints"] = True          # seat / pile / knock flags given as 1 and 0 instead of True and False
+    if rng.random() < 0.35:
+        case["hostile"] = True       # every view / candidate list handed out is edited by its receiver (gin.scribble)
     if rng.random() < 0.2:
         case["resume_at"] = rng.choice([0, 1, 2, 3, 5, 8, 13])
     if rng.random() < 0.3:
@@ -649,3 +701,16 @@ def helper_prelude(hand, code):
             f(list(hand))
         except Exception:
             pass
+    # ... and a caller that EDITS what these helpers hand back (pops the cards it has shown, sorts the meld lists, reuses
+    # them as scratch space): every container reachable from a result is emptied in place (scribble); the results belong to
+    # the caller, nothing the library keeps may change with them
+    for f in (ku.get_runs, ku.get_melds, gu.get_sets, ku.sort_hand, lambda h: ku.sorted_hand_points(h), du.rank_partition,
+              du.suit_partition, lambda h: ru.get_candidate_melds(h), lambda h: ru.split_melds(h),
+              lambda h: gu.rank_straights([c[0] for c in h if c[1] == h[0][1]], suit=h[0][1]) if h else None):
+        if on():
+            for n in (len(hand), 7, 8):
+                try:
+                    r = f(list(hand[:n]))
+                    scribble(list(r) if isinstance(r, tuple) else r)
+                except Exception:
+                    pass
